@@ -341,3 +341,43 @@ func H_C20_nearest() {
 	}
 	vCover("ran")
 }
+
+func init() { vHarnesses["H_C20_kmeans_box"] = H_C20_kmeans_box }
+
+// centroids lie inside the bounding box of the training vectors — on the dyadic grid domain (coordinates k/4,
+// |k| <= 32), where sums of up to four coordinates are exact and the rounding of the division is monotone, so the
+// containment is exact (no tolerance): duplicate points, all-equal data and k above the number of distinct points
+// (clusters that stay empty) included
+func H_C20_kmeans_box() {
+	dist, _ := NewDistance(L2Squared)
+	a, b := vGrid32("a"), vGrid32("b")
+	var vecs [][]float32
+	switch vChoose("data", 4) {
+	case 0:
+		vecs = [][]float32{{a}, {b}}
+	case 1:
+		vecs = [][]float32{{a}, {b}, {a}}
+	case 2:
+		vecs = [][]float32{{a}, {a}, {a}}
+	case 3:
+		vecs = [][]float32{{a}, {a}, {b}, {b}}
+	}
+	k := 2 + vChoose("k", 2)
+	cents, assign := KMeans(vecs, k, dist, 2)
+	want := k
+	if len(vecs) < k {
+		want = len(vecs)
+	}
+	vAssert(len(cents) == want && len(assign) == len(vecs), "kmeans-shape")
+	for _, c := range cents {
+		for d := range c {
+			lo, hi := vecs[0][d], vecs[0][d]
+			for _, v := range vecs[1:] {
+				lo = vIteF32(v[d] < lo, v[d], lo)
+				hi = vIteF32(v[d] > hi, v[d], hi)
+			}
+			vAssert(vAnd(c[d] >= lo, c[d] <= hi), "centroid-inside-the-bounding-box-of-the-training-vectors")
+		}
+	}
+	vCover("ran")
+}
